@@ -10,8 +10,14 @@ use rust_decimal::Decimal;
 
 /// Evaluate a formula inside a string and compute it into i64.
 pub fn eval_decimal(expr: String, placeholder: Decimal) -> Result<Decimal, ParseError> {
+    #[cfg(feature = "verif_hooks")]
+    crate::verif_hooks::tick(crate::verif_hooks::Site::ApiEnter);
     let expr = expr.split_whitespace().collect::<String>();
     let mut math_parser = Parser::new(&expr, Some(placeholder))?;
+    #[cfg(feature = "verif_hooks")]
+    crate::verif_hooks::tick(crate::verif_hooks::Site::ApiLexed);
     let ast = math_parser.parse()?;
+    #[cfg(feature = "verif_hooks")]
+    crate::verif_hooks::tick(crate::verif_hooks::Site::ApiParsed);
     Ok(eval(ast)?)
 }
